@@ -261,6 +261,12 @@ func c02Body(ctx string, e *Expr, yes, no, after *Atom) []Stmt {
 		return []Stmt{&If{Conds: []*Expr{e}, Bodies: [][]Stmt{y}, Else: n, HasElse: true}, &Cmd{Name: A(after)}}
 	case "elif":
 		return []Stmt{&If{Conds: []*Expr{LeafFlag(no), e}, Bodies: [][]Stmt{n, y}}, &Cmd{Name: A(after)}}
+	case "elif2a":
+		// the expression in the first of two elifs, with an else
+		return []Stmt{&If{Conds: []*Expr{LeafFlag(no), e, LeafFlag(after)}, Bodies: [][]Stmt{n, y, n}, Else: n, HasElse: true}, &Cmd{Name: A(after)}}
+	case "elif2b":
+		// the expression in the second of two elifs, without an else
+		return []Stmt{&If{Conds: []*Expr{LeafFlag(no), LeafFlag(after), e}, Bodies: [][]Stmt{n, n, y}}, &Cmd{Name: A(after)}}
 	case "while":
 		return []Stmt{&While{Cond: e, Body: y}, &Cmd{Name: A(after)}}
 	case "dowhile":
@@ -439,8 +445,8 @@ func RunC02(env *Env, rep *Report) {
 		ctxs     []string
 		flat     int // when > 0: only expressions with this many top-level operands
 	}
-	two := []string{"if", "while"}
-	four := []string{"if", "elif", "while", "dowhile"}
+	two := []string{"if", "while", "elif2a", "elif2b"}
+	four := []string{"if", "elif", "while", "dowhile", "elif2a", "elif2b"}
 	one := []string{"if"}
 	// quick: up to 3 leaves in full; the chains of 4 top-level operands (where
 	// finding #1 lived) without '!', also with one operand in redundant
